@@ -1,5 +1,6 @@
 """C12 - decompiling always terminates and round-trips compiler output."""
 import multiprocessing as mp
+from ..par import SafePool
 from ..common import Report
 from .. import asmcheck
 
@@ -9,7 +10,9 @@ def main(tier: str, seed: int) -> int:
     rep.rule = ('MC (Asm.tla disassembler: InstrLen / Decodes / Canon / Listing): all 65,793 byte strings of length <= 2, all '
                 'length-3 strings over one representative per decoder class (22^3) and a length-4/5 family of size-field '
                 'classes (0,1,2,0x7f,0x80,0xff; PUSH2 lengths 0x8001, 0xfffd, 0xffff), invariant InvDis (Progress: every '
-                'decoded length >= 1 and within the string; a decodable string re-assembles from its canonical program); '
+                'decoded length >= 1 and within the string; a decodable string re-assembles from its canonical program); thorough: ALL '
+                '16,777,216 strings of length 3 (family disasm3x, one TLC case per two-byte prefix: InvDis on each, decodes-or-not '
+                'compared with decompile_script, recompilation must give the bytes back); '
                 'every string is fed to decompile_script under a watchdog: must terminate, listing-or-error must agree, the '
                 'listing must equal the specified one line by line, and compile(listing) must give the bytes back. The C11 '
                 'families (struct, operands) are replayed on the listing side too. traces: random / mutated strings up to 70 '
@@ -23,12 +26,13 @@ def main(tier: str, seed: int) -> int:
     asmcheck.mc_family(rep, 'struct', 'dis', seed)
     if not quick:
         asmcheck.mc_family(rep, 'disasm3', 'dis')
+        asmcheck.mc_dis3x(rep)
     rep.exhaustive = True
     corpus = asmcheck.builder_corpus()
     rep.extra['corpus_scripts'] = len(corpus)
     n = 3000 if quick else 60000
     jobs = [(seed * 7919 + i, n // 56, 4000 if quick else 70000, corpus) for i in range(56)]
-    with mp.get_context('fork').Pool(14) as pool:
+    with SafePool(14) as pool:
         cases = [c for ch in pool.map(asmcheck._record_dis_chunk, jobs) for c in ch]
     # the corpus itself: every builder output and vector must round-trip
     cases += asmcheck.boundary_dis_cases()
